@@ -450,7 +450,7 @@ func analyseExitCondition(as AnalysisSpec, progs []*Program, cs *Contracts, func
 			if goal == "true" {
 				continue
 			}
-			q := &Query{Lines: pe.S.Lines, Goal: goal}
+			q := &Query{Lines: pathLines(pe), Goal: goal}
 			sr := Solve(work, fmt.Sprintf("%s.exitcond.%d", key, pe.S.PathID), fr.Engine.assemble(q, true), timeout, "")
 			o.Ms += sr.Ms
 			o.Queries++
@@ -890,4 +890,312 @@ func privateHelperOf(p *Program, fn *ssa.Function, tk string, cs *Contracts) boo
 		}
 	}
 	return callers > 0
+}
+
+func init() {
+	analyses["timed-wait"] = analyseTimedWait
+	analyses["paired-calls"] = analysePairedCalls
+	analyses["chan-confinement"] = analyseChanConfinement
+}
+
+// timerArm: is the channel operand of a select case a timer built from the call's FContext timeout?
+// Accepted shapes: ctx.Done() where ctx is the first result of ToContext(fctx); time.After(fctx.Timeout()).
+func timerArm(fn *ssa.Function, ch ssa.Value) (bool, string) {
+	call, ok := ch.(*ssa.Call)
+	if !ok {
+		return false, ""
+	}
+	fctx := func(v ssa.Value) bool {
+		// the FContext parameter of the function, possibly reloaded from its spill slot
+		for {
+			switch x := v.(type) {
+			case *ssa.Parameter:
+				return strings.HasSuffix(x.Type().String(), ".FContext")
+			case *ssa.UnOp:
+				if al, ok := x.X.(*ssa.Alloc); ok && x.Op == token.MUL {
+					for _, p := range fn.Params {
+						if al.Comment == p.Name() && strings.HasSuffix(p.Type().String(), ".FContext") {
+							return true
+						}
+					}
+				}
+				return false
+			default:
+				return false
+			}
+		}
+	}
+	load := func(v ssa.Value) ssa.Value {
+		// look through a load from a local that is stored exactly once
+		u, ok := v.(*ssa.UnOp)
+		if !ok || u.Op != token.MUL {
+			return v
+		}
+		al, ok := u.X.(*ssa.Alloc)
+		if !ok || al.Referrers() == nil {
+			return v
+		}
+		var stored ssa.Value
+		n := 0
+		for _, r := range *al.Referrers() {
+			if st, ok := r.(*ssa.Store); ok && st.Addr == ssa.Value(al) {
+				stored = st.Val
+				n++
+			}
+		}
+		if n == 1 {
+			return stored
+		}
+		return v
+	}
+	if call.Call.IsInvoke() && call.Call.Method.Name() == "Done" {
+		x := load(call.Call.Value)
+		if ex, ok := x.(*ssa.Extract); ok && ex.Index == 0 {
+			if c2, ok := ex.Tuple.(*ssa.Call); ok {
+				if sc := c2.Call.StaticCallee(); sc != nil && sc.Name() == "ToContext" && len(c2.Call.Args) == 1 && fctx(c2.Call.Args[0]) {
+					return true, "ctx.Done() of ToContext(fctx)"
+				}
+			}
+		}
+		return false, ""
+	}
+	if sc := call.Call.StaticCallee(); sc != nil && sc.Pkg != nil && sc.Pkg.Pkg.Path() == "time" && sc.Name() == "After" {
+		d := load(call.Call.Args[0])
+		if c2, ok := d.(*ssa.Call); ok && c2.Call.IsInvoke() && c2.Call.Method.Name() == "Timeout" && fctx(c2.Call.Value) {
+			return true, "time.After(fctx.Timeout())"
+		}
+	}
+	return false, ""
+}
+
+// analyseTimedWait (C13): in each listed function every potentially blocking instruction is a select
+// that has a timer arm derived from the FContext's timeout (T1), taking the timer arm returns a
+// TIMED_OUT transport error (T2); blocking calls must be on the allow-list (args["allow"]).
+func analyseTimedWait(as AnalysisSpec, progs []*Program, cs *Contracts, funcs []*FuncResult, work string, timeout time.Duration) *AnalysisResult {
+	ar := &AnalysisResult{Name: as.Name}
+	allow := map[string]bool{}
+	for _, a := range strings.Split(as.Args["allow"], ",") {
+		if a = strings.TrimSpace(a); a != "" {
+			allow[a] = true
+		}
+	}
+	for _, key := range as.Functions {
+		fr := findFunc(funcs, key)
+		o1 := &OblResult{Name: key + "/timed-wait", Kind: "timed-wait", Func: key, Desc: "every blocking instruction is a select with a timer arm built from the FContext timeout", Result: "discharged", Backend: "ssa-walker"}
+		o2 := &OblResult{Name: key + "/timeout-error", Kind: "timed-wait", Func: key, Desc: "taking the timer arm returns a TIMED_OUT transport exception", Result: "discharged", Backend: "ssa-walker"}
+		ar.Obls = append(ar.Obls, o1, o2)
+		if fr == nil || fr.Unsupported != "" {
+			o1.Result, o1.Why = "undecided", "function not verified"
+			o2.Result, o2.Why = "undecided", "function not verified"
+			continue
+		}
+		timedPaths := 0
+		for _, pe := range fr.PathEnds {
+			for _, ev := range pe.S.Trace {
+				switch ev.Kind {
+				case "recv":
+					o1.Result, o1.Why = "failed", "plain channel receive at "+ev.Pos
+				case "send":
+					if ev.Extra["private"] == "" {
+						o1.Result, o1.Why = "failed", "blocking send at "+ev.Pos
+					}
+				case "sleep", "wait":
+					o1.Result, o1.Why = "failed", ev.Kind+" at "+ev.Pos
+				case "call":
+					if (ev.Blocking || ev.Extra["blocking"] != "") && !allow[ev.What] {
+						o1.Result, o1.Why = "failed", "blocking call "+ev.What+" at "+ev.Pos+" is not on the allow-list"
+					}
+				case "select":
+					if !ev.Blocking {
+						continue
+					}
+					sel := ev.Instr.(*ssa.Select)
+					arm := -1
+					how := ""
+					for i, st := range sel.States {
+						if st.Dir != types.RecvOnly {
+							continue
+						}
+						if ok, h := timerArm(fr.Fn, st.Chan); ok {
+							arm, how = i, h
+						}
+					}
+					if arm < 0 {
+						o1.Result, o1.Why = "failed", "select at "+ev.Pos+" has no timer arm derived from the FContext timeout"
+						continue
+					}
+					ar.Details = append(ar.Details, fmt.Sprintf("%s: select at %s, timer arm #%d = %s", key, ev.Pos, arm, how))
+					if pe.Kind != "return" || len(pe.Results) == 0 {
+						continue
+					}
+					// T2 on this path: idx == arm => error result is TIMED_OUT
+					errv := pe.Results[len(pe.Results)-1]
+					goal := implies(eq(ev.Extra["idx"], num(int64(arm))), and(not(eq(errv.L[0], "0")), eq(app("ttype", errv.L[0]), "3")))
+					q := &Query{Lines: pathLines(pe), Goal: goal}
+					sr := Solve(work, fmt.Sprintf("%s.timeouterr.%d", key, pe.S.PathID), fr.Engine.assemble(q, true), timeout, "")
+					o2.Ms += sr.Ms
+					o2.Queries++
+					timedPaths++
+					if sr.Result == "unsat" {
+						if !strings.Contains(o2.Backend, sr.Solver) {
+							o2.Backend += "," + sr.Solver
+						}
+					} else {
+						o2.Result, o2.Why = "failed", "timer arm at "+ev.Pos+" does not lead to a TIMED_OUT error ("+sr.Result+")"
+						o2.FailQ, o2.Raw = q, sr.Raw
+					}
+				}
+			}
+		}
+		if as.Args["needs_timer"] != "" && timedPaths == 0 && o1.Result == "discharged" {
+			o2.Result, o2.Why = "failed", "no path with a timed select found"
+		}
+	}
+	ar.Summary = fmt.Sprintf("%d functions checked for timer-bounded waits", len(as.Functions))
+	return ar
+}
+
+// analysePairedCalls: on every return path on which args["open"] was called, args["close"] is called
+// later with the same argument at index args["arg"] (e.g. Register / Unregister of the same context).
+func analysePairedCalls(as AnalysisSpec, progs []*Program, cs *Contracts, funcs []*FuncResult, work string, timeout time.Duration) *AnalysisResult {
+	ar := &AnalysisResult{Name: as.Name}
+	open, cls := as.Args["open"], as.Args["close"]
+	ai, _ := strconv.Atoi(as.Args["arg"])
+	for _, key := range as.Functions {
+		fr := findFunc(funcs, key)
+		o := &OblResult{Name: key + "/paired:" + cls, Kind: "paired-calls", Func: key, Desc: "every return after " + open + " is preceded by " + cls + " of the same argument", Result: "discharged", Backend: "ssa-walker"}
+		ar.Obls = append(ar.Obls, o)
+		if fr == nil || fr.Unsupported != "" {
+			o.Result, o.Why = "undecided", "function not verified"
+			continue
+		}
+		seenOpen := false
+		for _, pe := range fr.PathEnds {
+			if pe.Kind != "return" {
+				continue
+			}
+			pending := []string{}
+			for _, ev := range pe.S.Trace {
+				if ev.Kind != "call" || ai >= len(ev.Args) || len(ev.Args[ai].L) == 0 {
+					continue
+				}
+				switch ev.What {
+				case open:
+					seenOpen = true
+					pending = append(pending, ev.Args[ai].L[0])
+				case cls:
+					for i, p := range pending {
+						if p == ev.Args[ai].L[0] {
+							pending = append(pending[:i], pending[i+1:]...)
+							break
+						}
+					}
+				}
+			}
+			if len(pending) > 0 {
+				o.Result, o.Why = "failed", "a return path leaves "+open+" without "+cls
+			}
+		}
+		if !seenOpen {
+			o.Result, o.Why = "failed", open+" is never called"
+		}
+	}
+	ar.Summary = fmt.Sprintf("%d functions checked for %s/%s pairing", len(as.Functions), open, cls)
+	return ar
+}
+
+// analyseChanConfinement (C01): the result channel of a request is made in the activation and flows only
+// to the listed uses: the registry's Register call and channel receives of the function itself.
+func analyseChanConfinement(as AnalysisSpec, progs []*Program, cs *Contracts, funcs []*FuncResult, work string, timeout time.Duration) *AnalysisResult {
+	ar := &AnalysisResult{Name: as.Name}
+	local := as.Args["local"]
+	okCallee := as.Args["callee"]
+	for _, key := range as.Functions {
+		o := &OblResult{Name: key + "/chan-confinement:" + local, Kind: "chan-confinement", Func: key, Desc: "channel " + local + " is made here and handed only to " + okCallee + " and to this function's own receives", Result: "discharged", Backend: "ssa-walker"}
+		ar.Obls = append(ar.Obls, o)
+		var fn *ssa.Function
+		for _, p := range progs {
+			if f := p.Funcs[key]; f != nil {
+				fn = f
+			}
+		}
+		if fn == nil {
+			o.Result, o.Why = "failed", "function not found"
+			continue
+		}
+		var al *ssa.Alloc
+		for _, b := range fn.Blocks {
+			for _, in := range b.Instrs {
+				if a, ok := in.(*ssa.Alloc); ok && a.Comment == local {
+					al = a
+				}
+			}
+		}
+		if al == nil || al.Referrers() == nil {
+			o.Result, o.Why = "failed", "local not found"
+			continue
+		}
+		made := false
+		for _, r := range *al.Referrers() {
+			switch x := r.(type) {
+			case *ssa.Store:
+				if x.Addr == ssa.Value(al) {
+					if _, ok := x.Val.(*ssa.MakeChan); ok {
+						made = true
+					} else {
+						o.Result, o.Why = "failed", "assigned from something other than make(chan) at "+progs[0].Pos(x.Pos())
+					}
+				} else {
+					o.Result, o.Why = "failed", "address stored at "+progs[0].Pos(x.Pos())
+				}
+			case *ssa.UnOp:
+				// each load: check its uses
+				if x.Referrers() == nil {
+					continue
+				}
+				for _, u := range *x.Referrers() {
+					switch y := u.(type) {
+					case *ssa.Call:
+						name := ""
+						if y.Call.IsInvoke() {
+							name = ifaceMethodKey(y.Common())
+						} else if sc := y.Call.StaticCallee(); sc != nil {
+							name = sc.Name()
+						}
+						if !strings.HasSuffix(name, okCallee) {
+							o.Result, o.Why = "failed", "passed to "+name+" at "+progs[0].Pos(y.Pos())
+						}
+					case *ssa.Select:
+						for _, st := range y.States {
+							if st.Chan == ssa.Value(x) && st.Dir != types.RecvOnly {
+								o.Result, o.Why = "failed", "sent on at "+progs[0].Pos(y.Pos())
+							}
+						}
+					case *ssa.UnOp:
+						if y.Op != token.ARROW {
+							o.Result, o.Why = "failed", "unexpected use at "+progs[0].Pos(y.Pos())
+						}
+					case *ssa.DebugRef:
+					default:
+						o.Result, o.Why = "failed", fmt.Sprintf("escapes through %T at %s", u, progs[0].Pos(u.Pos()))
+					}
+				}
+			case *ssa.DebugRef:
+			default:
+				o.Result, o.Why = "failed", fmt.Sprintf("address used by %T", r)
+			}
+		}
+		if !made && o.Result == "discharged" {
+			o.Result, o.Why = "failed", "not created with make(chan) in this function"
+		}
+	}
+	ar.Summary = fmt.Sprintf("%d request functions checked for result-channel confinement", len(as.Functions))
+	return ar
+}
+
+func pathLines(pe *PathEnd) []string {
+	if pe.Lines != nil {
+		return pe.Lines
+	}
+	return pe.S.Lines
 }
